@@ -47,6 +47,18 @@ void Node_Multiplexer::simulateEvaluate(sim::SimulatorCallbacks &simCallbacks, s
 
 	if (!allDefinedNonStraddling(state, inputOffsets[0], selectorType.width)) {
 
+		// If the undefined selector may address no input at all (as a defined selector beyond the inputs does), nothing is known about the output.
+		{
+			std::uint64_t selectorMask = utils::bitMaskRange<std::uint64_t>(0, selectorType.width);
+			std::uint64_t selectorValue = state.extractNonStraddling(sim::DefaultConfig::VALUE, inputOffsets[0], selectorType.width);
+			std::uint64_t selectorDefined = state.extractNonStraddling(sim::DefaultConfig::DEFINED, inputOffsets[0], selectorType.width);
+			std::uint64_t largestPossibleSelector = (selectorValue & selectorDefined) | (~selectorDefined & selectorMask);
+			if (largestPossibleSelector >= getNumInputPorts()-1) {
+				state.clearRange(sim::DefaultConfig::DEFINED, outputOffsets[0], getOutputConnectionType(0).width);
+				return;
+			}
+		}
+
 #if 0
 		// Check if all inputs equal (should be more fine grained based on the individual bits!)
 		bool allInputsEqual = true;
